@@ -6,6 +6,12 @@ import time
 from contracts.integrate_rt import rt_integrate  # noqa: F401
 
 LEVEL = 'proof'
+TEXT = ('configuration merge, locality (the solver reads settings only from its own Config; module defaults are read only '
+        'where a Config is created), the global setter and its history (configurations created after / before it), name and '
+        'alias parsing in every letter case (normal-form abstraction + exhaustive enumeration of the live alias table) are '
+        'proved / exhaustively enumerated; the step bound is proved as "time step x max(1, pre-step air speed) = half the '
+        'configured maximum" and measured by a bounded stand-in; one recorded finding (C18-step-low-speed: below ~3 fps of '
+        'air speed a step exceeds the maximum, reachable only with cMinimumVelocity lowered) is printed as KNOWN-FINDING')
 EXPLANATION = ('create_interface_config merge for none/each/all/pairs of the 8 settings and the unknown-key rejection; '
                'TrajectoryCalc.__init__ keeps its own Config and builds gravity from it; get_calc_step; the global step '
                'setter / reset with the global modelled as state; every enumeration name and every alias of the live '
